@@ -96,6 +96,50 @@ def check_case(sg, o, variant):
     return out
 
 
+def check_batched(sg, cases, fam):
+    """The specification treats every row independently (softmax / cross-entropy act along one dim): all rows of one
+    length are stacked into one matrix - rows of very different magnitude side by side - and every row must still
+    equal its own case; softmax / log_softmax also along dim 0 of the transposed matrix."""
+    F = sg.nn.functional
+    out = []
+    by_len = {}
+    for o in cases:
+        by_len.setdefault((o["c"]["op"], len(o["c"]["row"])), []).append(o)
+    for (op, n), group in sorted(by_len.items()):
+        rows = np.array([o["c"]["row"] for o in group], dtype=np.float64)
+        for dtype in (np.float32, np.float64):
+            dn = "f32" if dtype == np.float32 else "f64"
+            for axis in ((1, 0) if op != "ce" else (1,)):
+                try:
+                    with repo.quiet(), np.errstate(all="ignore"):
+                        X = sg.Tensor((rows if axis == 1 else rows.T).astype(dtype).copy(), requires_grad=True)
+                        if op == "ce":
+                            y = F.cross_entropy(X, sg.Tensor(np.array([o["c"]["y"] - 1 for o in group], dtype=np.int64)))
+                            y.backward(sg.Tensor(np.ones(y.data.shape, dtype=dtype)))
+                            got = y.data.reshape(len(group), 1)
+                            want = np.array([[val(o["out"])] for o in group])
+                        else:
+                            y = getattr(F, op)(X, axis)
+                            G = np.array([o["g"] for o in group], dtype=dtype)
+                            y.backward(sg.Tensor(G if axis == 1 else G.T.copy()))
+                            got = y.data if axis == 1 else y.data.T
+                            want = np.array([[val(e) for e in o["out"]] for o in group])
+                        gx = X.grad.data if axis == 1 else X.grad.data.T
+                        wantg = np.array([[val(e) for e in o["dx"]] for o in group])
+                except Exception as e:  # noqa: BLE001
+                    out.append(("%s:batched:raised:%s" % (op, type(e).__name__), "%s on a matrix of %d lattice rows raised %s: %s" % (op, len(group), type(e).__name__, str(e)[:100]), group[0]))
+                    continue
+                tol = 2e-6 * np.maximum(1.0, np.abs(rows).max(axis=1, keepdims=True))
+                for what, a, b in (("value", got, want), ("grad", gx, wantg)):
+                    a = np.asarray(a, dtype=np.float64)
+                    bad = ~np.isfinite(a).all(axis=1) | (np.abs(a - b) > tol).any(axis=1)
+                    if bad.any():
+                        i = int(np.argmax(bad))
+                        out.append(("%s:%s:batched:%s:dim%d" % (op, what, dn, axis), "%s %s of row %s inside a matrix of %d lattice rows (%s, along dim %d): %s, exact %s" % (
+                            op, what, group[i]["c"]["row"], len(group), dn, axis, a[i].tolist(), b[i].tolist()), group[i]))
+    return out
+
+
 def run(ctx):
     sg = repo.load(ctx.repo)
     q = ctx.quick
@@ -130,5 +174,9 @@ def run(ctx):
                 for key, msg in check_case(sg, o, variant):
                     rep.violation(key, msg, o)
             n += 1
+        if fam in ("softmax", "ce"):
+            rep.case("batched:" + fam)
+            for key, msg, o in check_batched(sg, res.cases, fam):
+                rep.violation(key, msg, o)
     rep.exhaustive = True
     return rep.finish()
